@@ -3,6 +3,7 @@
     [Bug]/[Panic]/[Fuel] outcome is reachable. *)
 From Aranya Require Import base.Tactics gen.GenQueue model.TravQueue
   proofs.TravQueueVec proofs.TravQueueMoves proofs.TravQueueSpec.
+From Coq Require Import Sorting.Sorted.
 
 Lemma in_absq_entries q e b : In (e, b) (absq q) -> In e (entries q).
 Proof.
@@ -679,3 +680,99 @@ Example travqueue_example :
         (VUnit, Q [L 8 0; L 3 3] 2); (VUnit, Q [L 8 0; L 3 3] 1); (VLocs [L 8 0], Q [] 0);
         (VBool true, Q [] 0); (VUnit, Q [] 0)].
 Proof. split; vm_compute; reflexivity. Qed.
+
+(** * Any number of consecutive pops: a heap-sort of the multiset.
+    [spec_pops m xs m'] says popping [length xs] times from [m] returned
+    [xs] in that order and left [m'].  The popped entries come out in
+    non-increasing max-cut order, every remaining entry is at most the last
+    one popped, and popped + remaining is exactly what was there. *)
+Fixpoint spec_pops (m : ms) (xs : list (loc * bool)) (m' : ms) : Prop :=
+  match xs with
+  | [] => m' = m
+  | x :: r => exists m1, spec_pop m (Some x) m1 /\ spec_pops m1 r m'
+  end.
+
+Definition mc_ge (a b : loc * bool) : Prop := (lmc (fst b) <= lmc (fst a))%N.
+
+Definition pops_descending_stmt : Prop :=
+  forall (xs : list (loc * bool)) (m m' : ms), spec_pops m xs m' ->
+    Permutation m (xs ++ m')
+    /\ StronglySorted mc_ge xs
+    /\ forall x y, In x xs -> In y m' -> mc_ge x y.
+Lemma pops_descending_proof : pops_descending_stmt.
+Proof.
+  intros xs. induction xs as [|[l c] r IH]; cbn [spec_pops app]; intros m m' H.
+  - subst m'. split; [reflexivity|]. split; [constructor|]. intros x y [].
+  - destruct H as (m1 & [P Hmax] & Hr). destruct (IH _ _ Hr) as (P1 & S1 & B1).
+    assert (Hsub : forall y, In y (r ++ m') -> mc_ge (l, c) y).
+    { intros [e b] Hy. unfold mc_ge. cbn [fst]. apply loc_leb_mc. eapply Hmax.
+      eapply Permutation_in; [symmetry; exact P|]. right.
+      eapply Permutation_in; [symmetry; exact P1|exact Hy]. }
+    split; [|split].
+    + rewrite P. constructor. exact P1.
+    + constructor; [exact S1|]. apply Forall_forall. intros y Hy. apply Hsub, in_or_app. auto.
+    + intros x y [<-|Hx] Hy; [apply Hsub, in_or_app; auto|]. eapply B1; eauto.
+Qed.
+
+(** The same for the model of the code: [n] calls of [pop_covered] on any
+    well-formed queue never fail, and when all of them returned an entry
+    those entries are in non-increasing max-cut order and were all in the
+    queue at the start. *)
+Fixpoint popped (tr : list (out * queue)) : option (list (loc * bool)) :=
+  match tr with
+  | [] => Some []
+  | (VLocCov (Some x), _) :: r => option_map (cons x) (popped r)
+  | _ => None
+  end.
+
+Lemma spec_trace_pops n : forall m tr xs,
+  spec_trace m (repeat OPopCovered n) tr -> popped tr = Some xs -> exists m', spec_pops m xs m'.
+Proof.
+  induction n as [|n IH]; cbn [repeat spec_trace]; intros m tr xs Ht Hp.
+  - destruct tr; [|destruct Ht]. cbn in Hp. inversion Hp; subst. exists m. reflexivity.
+  - destruct tr as [|[v q'] tr']; [destruct Ht|]. destruct Ht as [Hs Ht].
+    cbn [spec] in Hs. destruct Hs as (r & Hpop & ->). cbn [popped] in Hp.
+    destruct r as [x|]; [|discriminate].
+    destruct (popped tr') as [xs'|] eqn:E; [|discriminate]. cbn in Hp. inversion Hp; subst.
+    destruct (IH _ _ _ Ht E) as (m' & Hm'). exists m'. cbn [spec_pops]. exists (absq q'). auto.
+Qed.
+
+Definition queue_pops_descending_stmt : Prop :=
+  forall (n : nat) (q0 : queue), rep_ok q0 ->
+    exists tr, run q0 (repeat OPopCovered n) = Ok tr
+      /\ forall xs, popped tr = Some xs ->
+           StronglySorted mc_ge xs /\ forall x, In x xs -> In x (absq q0).
+Lemma queue_pops_descending_proof : queue_pops_descending_stmt.
+Proof.
+  intros n q0 Hq.
+  destruct (travqueue_refines_proof (repeat OPopCovered n) q0 Hq) as (tr & Hrun & Htr & _).
+  { apply Forall_forall. intros o Ho. apply repeat_spec in Ho. subst o. exact I. }
+  exists tr. split; [exact Hrun|]. intros xs Hp.
+  destruct (spec_trace_pops _ _ _ _ Htr Hp) as (m' & Hm').
+  destruct (pops_descending_proof _ _ _ Hm') as (P & S & _). split; [exact S|].
+  intros x Hx. eapply Permutation_in; [symmetry; exact P|]. apply in_or_app. auto.
+Qed.
+
+(** Non-vacuity of [queue_pops_descending]: three pops that all return an entry. *)
+Example queue_pops_example :
+  rep_ok (Q [L 5 0; L 8 1; L 3 2] 2)
+  /\ option_map (fun tr => popped tr) (match run (Q [L 5 0; L 8 1; L 3 2] 2) (repeat OPopCovered 3) with Ok tr => Some tr | _ => None end)
+     = Some (Some [(L 8 1, false); (L 5 0, false); (L 3 2, true)]).
+Proof. split; [vm_compute; auto|vm_compute; reflexivity]. Qed.
+
+(** Non-vacuity: three pops of a four-entry multiset. *)
+Example pops_descending_example :
+  spec_pops [(L 3 1, true); (L 8 0, false); (L 5 2, false); (L 1 4, false)]
+            [(L 8 0, false); (L 5 2, false); (L 3 1, true)] [(L 1 4, false)].
+Proof.
+  cbn [spec_pops].
+  exists [(L 3 1, true); (L 5 2, false); (L 1 4, false)]. split.
+  { split; [apply perm_swap|]. intros e b H; cbn in H.
+    repeat (destruct H as [H|H]; [inversion H; subst; vm_compute; reflexivity|]). destruct H. }
+  exists [(L 3 1, true); (L 1 4, false)]. split.
+  { split; [apply perm_swap|]. intros e b H; cbn in H.
+    repeat (destruct H as [H|H]; [inversion H; subst; vm_compute; reflexivity|]). destruct H. }
+  exists [(L 1 4, false)]. split; [|reflexivity].
+  split; [reflexivity|]. intros e b H; cbn in H.
+  repeat (destruct H as [H|H]; [inversion H; subst; vm_compute; reflexivity|]). destruct H.
+Qed.
